@@ -54,9 +54,28 @@ def parseOp? (s : String) : Option Op :=
   else if s.startsWith "R:" then (parseFrame? (s.drop 2).toString).map .rx
   else none
 
-/-- `da sa op… => out…` (one output token per op) -/
+/-- the handlers' accesses to the shared driver context, as the sequential model implies them: the stored command is
+read once by a cycle, written once by an accepted motion command, untouched by everything else -/
+def accessModel : String → Option (List String)
+  | "tick" => some ["tx_read"]
+  | "cmd-motion" => some ["tx_write"]
+  | "cmd-other" => some []
+  | _ => none
+
+/-- `da sa op… => out…` (one output token per op); `acc <handler> => <accesses>`; `stress <rounds> => <violations>` -/
 def check (inp out : List String) : Verdict :=
   match inp with
+  | ["acc", kind] =>
+    let tr := match out with | ["-"] => [] | [t] => t.splitOn "," | _ => ["?"]
+    let slot := tr.filter fun a => a == "tx_read" || a == "tx_write" || a == "inner"
+    { agree := (match accessModel kind with | some m => slot == m | none => true),
+      model := match accessModel kind with | some m => ",".intercalate m | none => "(not the command slot)",
+      specFail := failing [
+        -- a handler is atomic with respect to the stored command iff it touches that slot at most once
+        ("single_access_to_command_slot", decide (slot.length ≤ 1)),
+        ("only_commands_write_the_command_slot", kind == "cmd-motion" || !(slot.contains "tx_write" || slot.contains "inner"))] }
+  | ["stress", _] =>
+    { agree := out == ["0"], model := "0", specFail := failing [("latest_command_survives_concurrent_cycles", out == ["0"])] }
   | da :: sa :: ops =>
     match da.toNat?, sa.toNat?, ops.mapM parseOp?, out.mapM parseFrames? with
     | some da, some sa, some h, some outs =>
